@@ -9,6 +9,7 @@ package main
 
 import (
 	"encoding/json"
+	"fmt"
 	"strings"
 	"go/ast"
 	"go/types"
@@ -74,6 +75,9 @@ func (e *Engine) namesSnapshot() map[string][][2]string {
 			out[k] = e.localNames(fc.Fn)
 		}
 		out["params:"+e.ownKey(fc.Fn)] = e.paramNames(fc.Fn)
+		if lv := e.loopVars(fc.Fn); len(lv) > 0 {
+			out["loopvars:"+e.ownKey(fc.Fn)] = lv
+		}
 		if fc.Fn.Pkg != nil {
 			k2 := "pkgobjs:" + fc.Fn.Pkg.Pkg.Path()
 			if _, ok := out[k2]; !ok {
@@ -260,6 +264,267 @@ func (e *Engine) loadNameSnapshot() {
 	}
 }
 
+// loopVars: for every for/range statement of fn itself (closures inside it are functions of their own), in source
+// order -- the order of the loop ordinals -- two entries: the variable its init statement or range key declares and the
+// one its range value declares ("" where there is none). A loop clause that names the induction variable of loop k
+// keeps its meaning when that variable is renamed: it is resolved to whatever loop k declares now.
+func (e *Engine) loopVars(fn *ssa.Function) [][2]string {
+	syn := fn.Syntax()
+	if syn == nil || fn.Pkg == nil {
+		return nil
+	}
+	pp := e.pkgOf[fn.Pkg.Pkg]
+	if pp == nil || pp.TypesInfo == nil {
+		return nil
+	}
+	var body *ast.BlockStmt
+	switch x := syn.(type) {
+	case *ast.FuncDecl:
+		body = x.Body
+	case *ast.FuncLit:
+		body = x.Body
+	}
+	if body == nil {
+		return nil
+	}
+	qual := func(p *types.Package) string { return p.Name() }
+	kind := "for:"
+	entry := func(x ast.Expr) [2]string {
+		id, ok := x.(*ast.Ident)
+		if !ok || id.Name == "_" {
+			return [2]string{"", kind}
+		}
+		if obj, ok := pp.TypesInfo.Defs[id]; ok && obj != nil {
+			return [2]string{id.Name, kind + types.TypeString(obj.Type(), qual)}
+		}
+		return [2]string{"", kind}
+	}
+	var out [][2]string
+	var stack []bool // for every open node: is it a loop
+	depth := 0
+	ast.Inspect(body, func(n ast.Node) bool {
+		if n == nil {
+			if stack[len(stack)-1] {
+				depth--
+			}
+			stack = stack[:len(stack)-1]
+			return true
+		}
+		if _, isLit := n.(*ast.FuncLit); isLit {
+			return false
+		}
+		_, isFor := n.(*ast.ForStmt)
+		_, isRange := n.(*ast.RangeStmt)
+		stack = append(stack, isFor || isRange)
+		if isFor || isRange {
+			depth++
+		}
+		switch x := n.(type) {
+		case *ast.ForStmt:
+			kind = "for:"
+			a, b := [2]string{"", kind}, [2]string{"", kind}
+			if as, ok := x.Init.(*ast.AssignStmt); ok && len(as.Lhs) > 0 {
+				a = entry(as.Lhs[0])
+				if len(as.Lhs) > 1 {
+					b = entry(as.Lhs[1])
+				}
+			}
+			b[1] += fmt.Sprintf(" depth %d", depth)
+			out = append(out, a, b)
+		case *ast.RangeStmt:
+			kind = "range:"
+			a, b := [2]string{"", kind}, [2]string{"", kind}
+			if x.Key != nil {
+				a = entry(x.Key)
+			}
+			if x.Value != nil {
+				b = entry(x.Value)
+			}
+			// the second entry also records what is ranged over, by type (robust against renames): it tells
+			// loops of the same shape apart when one of them disappears
+			if tv, ok := pp.TypesInfo.Types[x.X]; ok && tv.Type != nil {
+				b[1] += " over " + types.TypeString(tv.Type, qual)
+			}
+			b[1] += fmt.Sprintf(" depth %d", depth)
+			out = append(out, a, b)
+		}
+		return true
+	})
+	return out
+}
+
+// loopAlign: for each loop of fn as it is now (index 0 = ordinal 1), the index of the loop it was when the contracts
+// were written, or -1 for a loop that is new. Loops are compared by shape (kind, type of the declared variables, type
+// of the range operand). Identity unless the number of loops changed; then loops may only have been removed or only
+// added, and the correspondence must be the only one possible. ok=false: no correspondence can be established.
+func (e *Engine) loopAlign(fn *ssa.Function) (newToOld []int, nOld int, ok bool) {
+	if al, have := e.loopAl[fn]; have {
+		return al.m, al.nOld, al.ok
+	}
+	if e.nameSnap == nil {
+		e.loadNameSnapshot()
+	}
+	sig := func(lv [][2]string) []string {
+		var out []string
+		for i := 0; i+1 < len(lv); i += 2 {
+			out = append(out, lv[i][1]+"|"+lv[i+1][1])
+		}
+		return out
+	}
+	cur := sig(e.loopVars(fn))
+	lvOld, have := e.nameSnap["loopvars:"+e.oldKey(fn, e.ownKey(fn))]
+	old := sig(lvOld)
+	m := make([]int, len(cur))
+	for i := range m {
+		m[i] = i
+	}
+	res := loopAlignment{m: m, nOld: len(cur), ok: true}
+	if have && len(old) != len(cur) {
+		res.nOld = len(old)
+		long, short := old, cur
+		if len(cur) > len(old) {
+			long, short = cur, old
+		}
+		// count the embeddings of short into long (as a subsequence); remember the leftmost one
+		ways := make([][]int, len(long)+1)
+		for i := range ways {
+			ways[i] = make([]int, len(short)+1)
+		}
+		for i := len(long); i >= 0; i-- {
+			for j := len(short); j >= 0; j-- {
+				switch {
+				case j == len(short):
+					ways[i][j] = 1
+				case i == len(long):
+					ways[i][j] = 0
+				default:
+					ways[i][j] = ways[i+1][j]
+					if long[i] == short[j] {
+						ways[i][j] += ways[i+1][j+1]
+					}
+					if ways[i][j] > 2 {
+						ways[i][j] = 2
+					}
+				}
+			}
+		}
+		if ways[0][0] != 1 {
+			// no unique correspondence: loops keep their ordinals (what was done before loops were matched by
+			// shape); a loop beyond the old count is new
+			res.ambiguous = true
+			for i := range m {
+				if i >= len(old) {
+					m[i] = -1
+				}
+			}
+		} else {
+			emb := make([]int, len(short)) // short index -> long index
+			i, j := 0, 0
+			for j < len(short) {
+				if long[i] == short[j] && ways[i+1][j+1] == 1 {
+					emb[j] = i
+					j++
+				}
+				i++
+			}
+			if len(cur) < len(old) {
+				copy(m, emb) // cur is short: cur j was old emb[j]
+			} else {
+				for i := range m {
+					m[i] = -1
+				}
+				for j, i := range emb {
+					m[i] = j // cur i (long) was old j
+				}
+			}
+		}
+	}
+	if e.loopAl == nil {
+		e.loopAl = map[*ssa.Function]loopAlignment{}
+	}
+	e.loopAl[fn] = res
+	return res.m, res.nOld, res.ok
+}
+
+type loopAlignment struct {
+	m         []int
+	nOld      int
+	ok        bool
+	ambiguous bool
+}
+
+// oldLoopOrdinal: the ordinal under which the contract knows the loop that has ordinal n now (0: none).
+func (e *Engine) oldLoopOrdinal(fn *ssa.Function, n int) int {
+	m, _, ok := e.loopAlign(fn)
+	if !ok || n < 1 || n > len(m) {
+		return n
+	}
+	if m[n-1] < 0 {
+		return 0
+	}
+	return m[n-1] + 1
+}
+
+// vanishedLoops: ordinals of contract loops (with clauses) that no loop of the function corresponds to any more.
+func (e *Engine) vanishedLoops(fn *ssa.Function, fc *FuncContract) []int {
+	m, nOld, ok := e.loopAlign(fn)
+	if !ok || nOld == len(m) {
+		return nil
+	}
+	kept := map[int]bool{}
+	for _, o := range m {
+		if o >= 0 {
+			kept[o+1] = true
+		}
+	}
+	var out []int
+	for n, lc := range fc.Loops {
+		if n <= nOld && !kept[n] && lc != nil && (len(lc.Invariants) > 0 || len(lc.Steps) > 0 || lc.Decreases != nil) {
+			out = append(out, n)
+		}
+	}
+	sort.Ints(out)
+	return out
+}
+
+// forToRange: induction variables of counting loops of fn that are range loops now (snapshot: "for:int", current:
+// "range:..."), mapped to the expression that keeps the clauses' meaning. Such a name is resolved this way even when a
+// variable of that name still exists (in the range loop it is the element index, bound only inside the body, whereas
+// the clauses mean "number of elements done").
+func (e *Engine) forToRange(fn *ssa.Function) map[string]string {
+	if m, ok := e.forRange[fn]; ok {
+		return m
+	}
+	if e.nameSnap == nil {
+		e.loadNameSnapshot()
+	}
+	m := map[string]string{}
+	if lv := e.nameSnap["loopvars:"+e.oldKey(fn, e.ownKey(fn))]; len(lv) > 0 {
+		cur := e.loopVars(fn)
+		seen := map[string]int{}
+		for _, o := range lv {
+			if o[0] != "" {
+				seen[o[0]]++
+			}
+		}
+		al, _, alOK := e.loopAlign(fn)
+		for k := 0; alOK && k < len(al); k++ {
+			i, c := 2*al[k], 2*k // old position, current position
+			if al[k] < 0 || i >= len(lv) || c >= len(cur) {
+				continue
+			}
+			if lv[i][0] != "" && seen[lv[i][0]] == 1 && lv[i][1] == "for:int" && strings.HasPrefix(cur[c][1], "range:") {
+				m[lv[i][0]] = fmt.Sprintf("rangeindex@%d+1", k+1)
+			}
+		}
+	}
+	if e.forRange == nil {
+		e.forRange = map[*ssa.Function]map[string]string{}
+	}
+	e.forRange[fn] = m
+	return m
+}
+
 // paramNames: receiver, parameters and named results of fn itself, in order.
 func (e *Engine) paramNames(fn *ssa.Function) [][2]string {
 	var out [][2]string
@@ -307,6 +572,60 @@ func (e *Engine) renamedLocal(fn *ssa.Function, name string) string {
 						return strings.TrimPrefix(cur[i][0], "result:")
 					}
 				}
+			}
+		}
+	}
+	if lv := e.nameSnap["loopvars:"+e.oldKey(fn, e.ownKey(fn))]; len(lv) > 0 {
+		curLV := e.loopVars(fn)
+		al, _, alOK := e.loopAlign(fn)
+		oldToCur := map[int]int{}
+		for k, o := range al {
+			if o >= 0 {
+				oldToCur[o] = k
+			}
+		}
+		hit := ""
+		for i, o := range lv {
+			if o[0] != name {
+				continue
+			}
+			k, have := oldToCur[i/2]
+			ci := 2*k + i%2
+			if !alOK || !have || ci >= len(curLV) || (hit != "") {
+				hit = ""
+				break
+			}
+			c := curLV[ci]
+			switch {
+			case c[0] != "" && c[1] == o[1]:
+				hit = c[0] // same kind of loop, same type: the variable loop k declares now
+			case i%2 == 0 && o[1] == "for:int" && strings.HasPrefix(c[1], "range:"):
+				// a counting loop turned into a range loop: at the loop head the old induction variable is the
+				// number of elements done, i.e. the hidden range index (last element done) plus one
+				hit = fmt.Sprintf("rangeindex@%d+1", k+1)
+			default:
+				hit = ""
+			}
+			if hit == "" {
+				break
+			}
+		}
+		if hit != "" && hit != name {
+			return hit
+		}
+		// the reverse: a range loop turned into a counting loop (clauses say rangeindex)
+		if name == "rangeindex" {
+			cand := ""
+			for i := 0; i+1 < len(lv) && i < len(curLV); i += 2 {
+				if strings.HasPrefix(lv[i][1], "range:") && curLV[i][1] == "for:int" && curLV[i][0] != "" {
+					if cand != "" {
+						return ""
+					}
+					cand = curLV[i][0] + "-1"
+				}
+			}
+			if cand != "" {
+				return cand
 			}
 		}
 	}
